@@ -1061,7 +1061,13 @@ func (g *gen) faultStmt(b *block, sc *scope) {
 // range expression of an array is evaluated once (the loop sees a copy).
 func (g *gen) orderStmt(b *block, sc *scope) {
 	r := g.r
-	switch r.Intn(9) {
+	kind := r.Intn(9)
+	if kind == 6 && (sc.quiet || sc.pure) {
+		// no panics, not even recovered ones, where the scope forbids them
+		// (the body of a for-range loop while finding C01-F4 is open)
+		kind = 5
+	}
+	switch kind {
 	case 4:
 		// closures created in loops capture the variables of their own
 		// iteration; function values are appended to a slice
@@ -1107,6 +1113,9 @@ func (g *gen) orderStmt(b *block, sc *scope) {
 		b.add("%s.A, %s.B = 10, 11", gs, gs)
 		b.add("func() {\n\t%s[1], %s.B = %s[1]+20, %s.B+30\n\tr := &%s[2]\n\t*r++\n}()", ga, gs, ga, gs, ga)
 		b.add("println(%q, %s[0], %s[1], %s[2], %s.A, %s.B)", tag, ga, ga, ga, gs, gs)
+		// a local variable that hides a package-level one is not taken for it
+		b.add("{\n\t%s := [4]int{7, 8}\n\t%s := struct{ A, B, C int }{1, 2, 3}\n\tp := &%s[3]\n\t*p = 4\n\t%s[0], %s[1] = %s[1], %s[0]\n\tq := &%s.C\n\t*q += 5\n\t%s.A, %s.B = %s.B, %s.A\n\tprintln(%q, %s[0], %s[1], %s[3], %s.A, %s.B, %s.C)\n}", ga, gs, ga, ga, ga, ga, ga, gs, gs, gs, gs, gs, tag, ga, ga, ga, gs, gs, gs)
+		b.add("println(%q, %s[0], %s[1], %s.A, %s.B)", tag, ga, ga, gs, gs)
 		// arrays and structs are passed by value, also from package-level
 		// and captured variables, to calls, deferred calls and closures
 		wr := g.newID("wr")
